@@ -1,9 +1,13 @@
 #!/bin/bash
-# seed_try.sh ID DIFF [tier] [extra vcheck args]: apply DIFF to /repo, run the check, undo.
+# seed_try.sh ID DIFF [tier] [extra vcheck args]: run the check of property ID against a scratch
+# copy of /repo with DIFF applied (/repo itself and /verif/evidence are not touched).
 ID=$1; DIFF=$2; TIER=${3:-quick}; shift 3 2>/dev/null
-cd /repo && git diff --quiet || { echo "/repo not clean"; exit 2; }
-git -C /repo apply "$DIFF" || exit 2
-cd /verif && ./bin/vcheck -p $ID -tier $TIER "$@" 2>&1 | tail -12
+S=/tmp/seedtry.$$
+mkdir -p $S/verif/evidence $S/verif/replays
+cp -r /verif/harness /verif/rt /verif/known_findings.json /verif/na.json $S/verif/
+git -C /repo worktree add --detach $S/repo HEAD -q || exit 2
+git -C $S/repo apply "$DIFF" || { git -C /repo worktree remove --force $S/repo; rm -rf $S; exit 2; }
+VERIF_DIR=$S/verif VERIF_REPO=$S/repo /verif/bin/vcheck -p $ID -tier $TIER "$@" 2>&1 | tail -12
 rc=${PIPESTATUS[0]}
-git -C /repo checkout -- .
+git -C /repo worktree remove --force $S/repo; rm -rf $S
 echo "check exit=$rc"
